@@ -24,6 +24,19 @@ CHECKS = {
  'C13': dict(cat='model_checking', tech='trace validation of sliced runs (prepare_eval + run_count budgets) against the slice-free TLA+ semantics SchemeCEK with TLC',
    text='The CEK machine has no slices, so one behaviour is the oracle for every budget sequence: programs of the C01/C05/allocation generators are run with constant budgets 1..64 (each) and with seeded random budget sequences in 1..10^4; TLC validates value, failure, output and later global effects of every sliced run, and that no resumed slice with work left executes zero instructions.',
    note='Same trusted base as C01; instructions per slice are counted by the verif hook.', ref='5 C13'),
+
+ 'C04': dict(cat='model_checking', tech='trace validation of tail-call loop programs against SchemeCEK with a refinement bound between continuation depth and the implementation stack pointer (TLC)',
+   text='In the CEK machine a call pushes no frame, so tail calls are exactly the calls across which the continuation depth D does not grow. For every loop program (21 tail contexts and their compositions x caller/callee arities 0..4 with/without rest x cycles of 1-3 procedures) TLC runs the machine at n=10 and n=100, checks value agreement with the implementation, D(10)=D(100), and that the implementation\'s maximal stack pointer stays within (D+2)(2W+5); the runs at n=1000 and n=100000 (implementation only, statistics hook) must stay within the same bound and return the value of the non-tail twin program.',
+   note='The bound rests on the argument of DESIGN.md 5/C04 (each VM return frame belongs to a pending non-tail call under a distinct CEK context frame). TLC cannot run 10^5 iterations; the twin program is the value oracle there.', ref='5 C04'),
+ 'C11': dict(cat='model_checking', tech='exhaustive TLC model check of the reader grammar spec (Reader.tla) + replay of all TLC-generated token-class sequences into parse_text + trace validation of scanner spans',
+   text='Reader.tla states R7RS 7.1.2 twice (grammar predicate and pushdown recogniser) and TLC proves them equivalent and prefix-consistent for all class sequences to length 7 (quick) / 8 (thorough). Every sequence to length 5 / 7 is emitted by TLC with its required classification (datum consuming k tokens / incomplete / error / unspecified), rendered with 8 spellings and separator choices and replayed into parse_text and the eval_text loop; seeded Unicode texts are scanned by the implementation and TLC validates the span discipline and the grammar verdict of each recorded text.',
+   note='Trusted: the rendering tables of harness/src/reader.rs. The REPL and wasm front ends are not linked; their loops are the parse_text/eval_text computation exercised here.', ref='5 C11'),
+ 'C17': dict(cat='model_checking', tech='trace validation of (transformer, use) records against the TLA+ specification of R7RS 4.3.2 (SyntaxRules.tla) with TLC',
+   text='SyntaxRules.tla specifies matching and template instantiation (literals, underscore, custom ellipsis, nested ellipses, tails after an ellipsis, improper and vector patterns/templates, (... ...)). Generated transformers and uses are evaluated by the real VM with quoted templates under a resource watchdog; TLC recomputes Expand for every record and accepts a reported error always, a value only when it equals the prescribed expansion, and never a panic or time-out. The spec is regression-checked on 95 hand-stated R7RS examples.',
+   note='Hygiene is out of scope by construction (quoted templates, no binders). Seven genuine matcher/expander defects are listed as open known findings with structural signatures; a different defect on transformers of exactly those shapes could be masked.', ref='5 C17'),
+ 'C18': dict(cat='model_checking', tech='trace validation of symbol-production sessions under forced collection schedules against SchemeCEK (symbols are interned names) with TLC',
+   text='In the CEK machine a symbol is its interned name (symbol table in the machine state), eq? on symbols is identity of the interned name, and the two conversions are the identity on names. Sessions produce two symbols by every pair of routes with names from all of Unicode, keep or drop the first, within one form or across forms, under forced collections at every k-th instruction and pseudo-random boundaries; TLC validates eq?, memq and the string round trips observed inside the language.',
+   note='Macro-output route not generated yet. The intern table itself is checked structurally by the C03/C12 snapshot check.', ref='5 C18'),
 }
 NOT_YET = {}
 NA = {
